@@ -1310,6 +1310,10 @@ func verifWireRawEnvelope(in *rawEnvelope) (out *rawEnvelope, err error) { panic
 //@   props C01 C02
 //@   modifies nothing
 //@   ensures result == mtStr(m)
+//@ func MediaTypePing :: () (result)
+//@   props C01 C11
+//@   modifies nothing
+//@   ensures [C01,C11] @wellformed textOK_MediaType(result) && result.Suffix == "json"  ## a registered type is keyed by its media type VALUE: the key must be what ParseMediaType makes of its own text, or the decoder never finds the factory
 //@ func (Node).MarshalText :: (n) (result0, result1)
 //@   props C01 C02
 //@   modifies nothing
@@ -2230,6 +2234,7 @@ func lemmaForwardSession(raw *rawEnvelope) (e *Session, e3 *Session, accepted bo
 
 //@ func (*channel).setState :: (c, state) ()
 //@   props C06 C07 C08
+//@   oncall [C06] (*channel).stopReceiver : c.state == SessionStateFinished || c.state == SessionStateFailed  ## the terminal state is stored before the (possibly slow) wait for the receiver: senders running meanwhile are refused
 //@   requires c != nil
 //@   requires [C06] @receiverready state == SessionStateEstablished && !c.startRcv.fired ==> c.transport != nil && !payloadnil(c.transport) && rcvReady(c)
 //@   panics only-if step(state) < step(c.state)
@@ -2677,6 +2682,7 @@ func lemmaForwardSession(raw *rawEnvelope) (e *Session, e3 *Session, accepted bo
 
 //@ func (*ServerChannel).negotiateSession :: (c, ctx, compOpts, encryptOpts) (result)
 //@   props C07 C09 C10
+//@   checks [C07,C14] @nofreshfailure result != nil ==> nerrall() > 0  ## the handshake fails with an error only when something it called failed (transport, callback): a protocol violation by the client is never turned into a bare error - it is answered (FailSession), and that is what the other clauses pin down
 //@   requires srvInv(c)
 //@   requires [C07] @clientword c.state == SessionStateNew && effStage(c.transport) == 0 && firstWordOK(c)
 //@   panics only-if ctx == nil
@@ -2734,6 +2740,7 @@ func lemmaForwardSession(raw *rawEnvelope) (e *Session, e3 *Session, accepted bo
 
 //@ func (*ServerChannel).authenticateSession :: (c, ctx, schemeOpts, authenticate, register) (result)
 //@   props C03 C07 C09 C10 C14
+//@   checks [C07,C14] @nofreshfailure result != nil ==> nerrall() > 0  ## the handshake fails with an error only when something it called failed (transport, callback): a protocol violation by the client is never turned into a bare error - it is answered (FailSession), and that is what the other clauses pin down
 //@   requires srvInv(c) && authenticate != nil && register != nil && (c.state == SessionStateNew || c.state == SessionStateNegotiating) && !c.startRcv.fired
 //@   requires [C07] @clientword (c.state == SessionStateNew || c.state == SessionStateNegotiating) ==> authWordOK(c)
 //@   requires [C09] @switched switched(c)
@@ -2759,6 +2766,7 @@ func lemmaForwardSession(raw *rawEnvelope) (e *Session, e3 *Session, accepted bo
 
 //@ func (*ServerChannel).EstablishSession :: (c, ctx, compOpts, encryptOpts, schemeOpts, authenticate, register) (result)
 //@   props C03 C07 C09 C10 C14
+//@   checks [C07,C14] @nofreshfailure result != nil ==> nerrall() > 0  ## the handshake fails with an error only when something it called failed (transport, callback): a protocol violation by the client is never turned into a bare error - it is answered (FailSession), and that is what the other clauses pin down
 //@   requires srvInv(c) && c.state == SessionStateNew && effStage(c.transport) == 0 && !c.startRcv.fired
 //@   entry-ghost c.cfgEnc = elems(encryptOpts)
 //@   entry-ghost c.cfgComp = elems(compOpts)
@@ -2892,6 +2900,7 @@ func lemmaForwardSession(raw *rawEnvelope) (e *Session, e3 *Session, accepted bo
 //@   modifies *c.processingCmds
 //@   ghostinit anychan.ResponseCommand : chankey(v) == reqCmd.ID && neverclosed(v)  ## the reply channel this call creates (whatever the variable is called)
 //@   chaninv-local anychan.ResponseCommand : v != nil && v.ID == chankey(ch)
+//@   oncall [C05] RequestCommandSender.SendRequestCommand : a_cmd == reqCmd && inset(domof(c.processingCmds), reqCmd.ID)  ## the request goes out only after its id is in the pending table: a prompt response must find the entry
 //@   ensures [C05] @ownresponse err == nil ==> result0 != nil && result0.ID == reqCmd.ID
 //@   checks [C05] @duprejected inset(domatlock(channel.processingCmds), reqCmd.ID) ==> err != nil && tablewrites(channel.processingCmds) == 0
 //@   checks [C04,C05] @reusable !inset(domatlock(channel.processingCmds), reqCmd.ID) ==> !inset(domatunlock(channel.processingCmds), reqCmd.ID)  ## also C04: a response that arrives after its requester gave up must find no entry, so that the receiver forwards it to the response stream instead of parking it in a channel nobody reads
